@@ -15,6 +15,7 @@ RULE = ("(a) every single-character name over a 150-character critical set (pack
         "streams.  Oracle: a finite map from the names given to the bytes last written; the listing must equal its key set; "
         "the raw entry list of the saved file must hold exactly the table streams, pool, summary and one entry per live "
         "stream; no call may panic.  non-trivial = at least two live streams at some point; distinct = distinct command lists")
+RULE = RULE + ("  (e) files laid out like patch packages: sub-storages below the root holding streams of their own (also under names that exist at the root, and under a table's name) -- the package's streams are those of the root storage only.")
 ASSUMPTIONS = ["names used together in one history are never equal under the container's own comparison unless identical "
                "(the property excludes such pairs); cfb's Unicode upper-casing is modelled over ASCII only"]
 
@@ -181,6 +182,26 @@ def gen_cases(rng, tier, info):
                               "(has_stream %s)" % X.enc_str("\u0005MsiDigitalSignatureEx"), "(raw)", "(remove_sig)", "(has_sig)"]
         cmds += obs_cmds() + ["(rows)", "(reopen %s)" % mode, "(has_sig)", "(raw)", "(rows)", "(sum_get)"] + obs_cmds()
         cases.append(Case("signature-%s" % mode, cmds, ("signature",)))
+    # files laid out like patch packages / installers with embedded transforms: sub-storages below the root, holding
+    # streams of their own (also under names that exist at the root).  The package's streams are those of the root.
+    import msienc, msidec
+    for j in range(4):
+        tables = {"T1": ([mk("K", "i16", pk=True), mk("V", ("str", 8), null=True)], [[1, "a"], [2, None]])}
+        root = {"Hello": [1, 2, 3], "Bin.dat": data_for(j, 40)} if j != 2 else {}
+        clsid, entries, _ = msienc.encode_db(rng, j % 3, 65001, tables, [(2, 30, "T")], root, long_refs=(j == 1))
+        enc = lambda nm: msidec.encode_name(nm, False)
+        entries = list(entries) + [("Transform1/" + enc("Inner.bin"), bytes([9, 9])), ("Transform1/" + enc("Hello"), bytes([7])),
+                                   ("#Patch/Deep/" + enc("x"), bytes(data_for(j, 300)))]
+        if j == 3:
+            entries.append(("Transform1/" + msidec.encode_name("T1", True), bytes([1, 128])))
+        cmds = [msienc.enc_open_raw(clsid, entries).replace("(open_raw", "(x_open_raw", 1)] + obs_cmds()
+        for nm in ("Hello", "Inner.bin", "x", "Transform1", "#Patch"):
+            cmds += ["(has_stream %s)" % X.enc_str(nm), "(read_stream %s)" % X.enc_str(nm)]
+        cmds += [w("New", [4, 5, 6])] + obs_cmds() + ["(remove_stream %s)" % X.enc_str("Inner.bin"), "(rows)", "(reopen %s)" % ["flush", "into_inner", "drop", "flush"][j]]
+        cmds += obs_cmds() + ["(rows)"]
+        c = Case("substorage-%d" % j, cmds, ("impl_only", "substorage"))
+        c.live0 = {k: list(v) for k, v in root.items()}
+        cases.append(c)
     info.update({"single_names": len(CRIT), "pairs": len(pairs), "histories": n})
     return cases
 
@@ -216,6 +237,11 @@ def oracle(ctx):
                     report("signature", "remove_digital_signature returned %s" % o)
             if name == "create":
                 live = {}
+            elif name == "x_open_raw":
+                live = {k: list(v) for k, v in c.live0.items()}
+                if o != "(ok ())":
+                    report("reopen", "a file with sub-storages does not open: %s" % o)
+                    break
             elif name == "write_stream":
                 nm = "".join(map(chr, sx[1]))
                 ok = stream_name_valid(nm)
